@@ -15,7 +15,11 @@ RULE = ("every modelled operation on collections (join/meet in all 12 scenarios,
         "with 1-2 collection axes, lengths 1-4, mixed single/collection arguments and right-aligned broadcasting: the result at "
         "every position is compared with the model's answer for the SINGLE objects at that position; integer indexing / iteration "
         "of every collection class returns the element class with attributes intact; non-trivial = collection with >= 2 positions "
-        "or a broadcast")
+        "or a broadcast; plus (tools/colllib.py) ~50 further public operations (quadric tangent / polar / contains / intersect, crossratio, "
+        "harmonic_set, angle, dist, predicates, project / perpendicular / parallel / mirror, point arithmetic, transformation apply and "
+        "compose, segment / triangle contains, midpoint, length, area) on valid single-object tuples stacked into collections of shape (k,), "
+        "(1,), (k,1), (1,k) and mixed single/collection arguments: the result at every position must equal (same class family, projectively / "
+        "numerically) what the library returns for the single objects of that position")
 ASSUMPTIONS = ["per-position comparison is projective (rtol 1e-9)"]
 
 
@@ -163,11 +167,8 @@ def correspondence(ctx):
         replay(ctx, json.load(open(f)))
     jm_positionwise(ctx, ctx.budget(25, 400))
     element_access(ctx, ctx.budget(140, 2000))
-    for extra in EXTRA_STREAMS:
-        extra(ctx)
-
-
-EXTRA_STREAMS = []      # other property modules register their collection streams here
+    import colllib
+    colllib.run(ctx, ctx.budget(900, 12000))
 
 
 def replay(ctx, rec):
